@@ -365,3 +365,69 @@ def rule_dr4(ctx, min_sites=4):
                        "ProjectiveDrawing3D ignores its chart_index here "
                        "(3-dimensional drawings are outside the property's "
                        "statement; latent)")
+
+
+# ---------------------------------------------------------------------------
+# NAN1: a radius is compared with the threshold only next to its NaN test
+
+
+def rule_nan1(ctx, min_sites=3):
+    r = ctx.r
+    r.rule("NAN1", "circle_parameters reports radius NaN for geodesics "
+                   "through the Poincare origin / vertical half-plane "
+                   "geodesics; every comparison of a radius with the "
+                   "straight-line threshold therefore sits in one boolean "
+                   "expression with np.isnan of the same radius (a bare "
+                   "comparison sends NaN down the circular-arc branch)")
+    m = ctx.p.module_by_rel(DRAW)
+    n_sites = 0
+    for f in ctx.p.all_functions:
+        if f.module is not m:
+            continue
+        parents = f.module.parents
+        for c in ast.walk(f.node):
+            if not (isinstance(c, ast.Compare) and len(c.ops) == 1):
+                continue
+            sides = [c.left, c.comparators[0]]
+            thr = [x for x in sides if "radius_threshold" in dotted(x).lower()]
+            var = [x for x in sides if isinstance(x, ast.Name)
+                   and "threshold" not in x.id.lower()]
+            if not thr or not var:
+                continue
+            x = var[0].id
+            n_sites += 1
+            r.analysed(f)
+            top = c
+            while True:
+                p = parents.get(top)
+                if isinstance(p, (ast.BoolOp, ast.UnaryOp)) or (
+                        isinstance(p, ast.BinOp)
+                        and isinstance(p.op, (ast.BitAnd, ast.BitOr))):
+                    top = p
+                    continue
+                break
+            guarded = any(isinstance(k, ast.Call)
+                          and dotted(k.func) in ("np.isnan", "math.isnan",
+                                                 "np.isfinite")
+                          and k.args and dotted(k.args[0]) == x
+                          for k in ast.walk(top))
+            inst = f"{f.qualname}:{dotted(c)}"
+            if guarded:
+                r.ok("NAN1", inst, loc(f, c), dotted(top)[:100],
+                     "the comparison is combined with the NaN test")
+            else:
+                r.violation(
+                    "NAN1", f"{f.fq}|{dotted(c)}", loc(f, c),
+                    dotted(top)[:140],
+                    f"`{dotted(c)}` is evaluated without np.isnan({x}): a "
+                    "geodesic through the origin of the Poincare disk (or a "
+                    "vertical one in the half-plane) has radius NaN, every "
+                    "comparison with NaN is False, and the edge is drawn "
+                    "through the circular-arc branch with NaN parameters "
+                    "(ValueError, nothing is added to the axes)",
+                    instance=inst)
+    if n_sites < min_sites:
+        raise AnalysisError(f"NAN1: {n_sites} radius/threshold comparisons "
+                            f"found, {min_sites} confirmed by hand (stale "
+                            "table)")
+    return n_sites
